@@ -94,7 +94,7 @@ CHECKS = {
               "function of that ordered input. On the implementation: exports are parsed back and compared with the typeset's graphs, bytes compared across all supply orders for small "
               "typesets and sampled orders for larger ones; the DOT text handed to graphviz is compared, in order, with the generated model's."),
         ref="DESIGN.md section 6 (C19)",
-        note=TB_COMMON + "Byte-identity across supply orders is a theorem (C19_export_independent_of_supply_order: theory/SortTheory.v proves that the stable insertion sort used by the generated code is a function of the multiset when keys are injective; type names are distinct by computation on the regenerated table; C14_supply_order_is_irrelevant gives the permutation premises) under the assumption that pydot/graphviz is a deterministic function of the ordered node and edge lists it is handed - that function is not modelled, it is exercised by the byte comparison on the implementation.",
+        note=TB_COMMON + "Byte-identity across supply orders is a theorem without premises on the graphs for typesets built by the generated constructor (C19_constructed_typesets_export_identically: two closed lists holding the same types build typesets whose exports, full or base_only, are the same call of pydot; theory/ExportWF.v derives the permutation and NoDup premises from C14's well-formedness theorem) and, for arbitrary graphs, under permutation premises (C19_export_independent_of_supply_order: theory/SortTheory.v proves that the stable insertion sort used by the generated code is a function of the multiset when keys are injective; type names are distinct by computation on the regenerated table; C14_supply_order_is_irrelevant gives the permutation premises) under the assumption that pydot/graphviz is a deterministic function of the ordered node and edge lists it is handed - that function is not modelled, it is exercised by the byte comparison on the implementation.",
         technique="Coq proof (generated export = sorted copy; sorted copy is permutation-invariant) + parse-back oracle and byte comparison across supply orders",
     ),
     "C17": dict(
@@ -108,13 +108,17 @@ CHECKS = {
         technique="Coq proof by case analysis over a Spark type language on generated contains_ops + engine; Spark-session differential test and property oracle",
     ),
     "C15": dict(
-        text=("Coq proof for the reference walk (which the generated engine is proved to compute): if B's walk is exclusive (exactly the followed relation accepts at every node, guards leave "
-              "the state alone) and A's successor lists are B's filtered to A's types (induced subgraph), then A's walk follows B's path exactly while it stays in A and stops where B "
-              "leaves A - detect_A is the deepest type of B's detection path in A, infer_A's path is a prefix of infer_B's. On the implementation the same statement is checked for "
-              "Standard<=Geometry<=Complete and random parent-closed pairs on all shared streams; inputs in recorded C02 overlap classes are excluded by the same classifiers."),
-        ref="DESIGN.md section 6 (C15)",
-        note=TB_COMMON + "The link 'graph of a sub-typeset = induced subgraph of the larger one' is established by C14's exhaustive construction check, not by a Coq theorem yet.",
-        technique="Coq proof by induction over exclusive walks (prefix/refinement theorem); typeset-pair oracle on the implementation",
+        text=("Coq proof in two layers. (1) For the reference walk (which the generated engine is proved to compute): if B's walk is exclusive (exactly the followed relation accepts at every "
+              "node, guards leave the state alone) and A's successor lists are B's filtered to A's types, then A's walk follows B's path exactly while it stays in A and stops where B "
+              "leaves A - detect_A is the deepest type of B's detection path in A, infer_A's path is a prefix of infer_B's. (2) That hypothesis is DERIVED (theory/GraphRefine.v, from C14's "
+              "well-formedness theorem): for every relation table with the table facts and every two closed lists of types A <= B, in any supply and set-iteration orders, the generated "
+              "constructor builds both typesets and their ACTUAL graphs refine - relation graphs (infer) and, when A has at least two types, identity graphs (detect) - because A's "
+              "successor lists are B's filtered to A's types up to order and up to extensional equality of the stored relations (a simulation lemma for exclusive walks covers both). "
+              "The shipped table satisfies the hypotheses by computation. On the implementation the same statement is checked for Standard<=Geometry<=Complete, random parent-closed "
+              "pairs and pairs built by the typeset algebra (B = A + T..., A = B - T...) on all shared streams; inputs in recorded C02 overlap classes are excluded by the same classifiers."),
+        ref="DESIGN.md section 3 (C15)",
+        note=TB_COMMON + "Exclusivity of the shipped relations along a walk (the hypothesis [xwalks]) is a property of the guards (C02) and is decided on the implementation, not in Coq.",
+        technique="Coq proof: refinement theorem by induction over exclusive walks + induced-subgraph link derived from the constructor's well-formedness theorem; typeset-pair oracle on the implementation",
     ),
     "C02": dict(
         text=("Coq proof for the reference walk: under exclusivity along the walk (exactly one outgoing relation accepts, guards do not touch the state) every permutation of the successor "
